@@ -151,7 +151,10 @@ def _convert(item):
             src3 = cube
         else:
             # traces longer than a sample block for the small block lengths (windows that start in a later block)
-            nz2 = 150 if 4 <= s[2] < 150 else 7
+            bz2 = s[2]
+            if s[2] == -1 and n > 0 and s[0] > 0 and s[1] > 0:      # the free sample length follows from the rate: 32768 bits per block
+                bz2 = (32768 * d // n) // (s[0] * s[1])
+            nz2 = (bz2 + bz2 // 2 + 3 if bz2 >= 150 else 150) if 4 <= bz2 <= 1024 else 7
             data = inputs.cube((6, nz2), seed)
             sgy = os.path.join(dd, f'l{nz2}.sgy')
             if not os.path.exists(sgy):
